@@ -3,7 +3,10 @@ package data
 //go:generate genny -in=$GOFILE -out=gen-$GOFILE gen "ArrayType=float64,float32,int32,uint32,int64,uint64"
 
 func ApplyFunc1ArrayType(dest, source NDArrayType, fn func(val ArrayType) ArrayType) {
-	if dest.Contiguous() && source.Contiguous() {
+	// The fast path writes through dest.Unroll(), which only aliases the
+	// storage of Go-backed arrays (C-backed arrays unroll into a copy).
+	_, destAliases := dest.(*ndArrayType)
+	if destAliases && dest.Contiguous() && source.Contiguous() {
 		destSlice := dest.Unroll()
 		sourceSlice := source.Unroll()
 		for i := range destSlice {
@@ -28,7 +31,9 @@ func ScaleArrayTypeArray(dest, source NDArrayType, scale ArrayType) {
 }
 
 func AddToArrayTypeArray(dest, source NDArrayType) {
-	if dest.Contiguous() && source.Contiguous() {
+	// See ApplyFunc1ArrayType: the fast path needs an aliasing Unroll().
+	_, destAliases := dest.(*ndArrayType)
+	if destAliases && dest.Contiguous() && source.Contiguous() {
 
 		destSlice := dest.Unroll()
 		sourceSlice := source.Unroll()
